@@ -223,6 +223,7 @@ func c14Eval(c *ctx, cs c14Case) {
 		}
 	case "wrong-request":
 		// a response constructor must refuse a request of another kind
+		status := byte(cs.Session) | 1
 		reqs := map[string]func() ast.HSMSMessage{
 			"select.req":   func() ast.HSMSMessage { return ast.NewHSMSMessageSelectReq(s16, sys) },
 			"deselect.req": func() ast.HSMSMessage { return ast.NewHSMSMessageDeselectReq(s16, sys) },
@@ -243,8 +244,8 @@ func c14Eval(c *ctx, cs c14Case) {
 			needs string
 			f     func(ast.HSMSMessage)
 		}{
-			"select.rsp":   {"select.req", func(r ast.HSMSMessage) { ast.NewHSMSMessageSelectRsp(r, 0) }},
-			"deselect.rsp": {"deselect.req", func(r ast.HSMSMessage) { ast.NewHSMSMessageDeselectRsp(r, 0) }},
+			"select.rsp":   {"select.req", func(r ast.HSMSMessage) { ast.NewHSMSMessageSelectRsp(r, status) }},
+			"deselect.rsp": {"deselect.req", func(r ast.HSMSMessage) { ast.NewHSMSMessageDeselectRsp(r, status) }},
 			"linktest.rsp": {"linktest.req", func(r ast.HSMSMessage) { ast.NewHSMSMessageLinktestRsp(r) }},
 		}
 		for rn, mk := range reqs {
@@ -255,6 +256,40 @@ func c14Eval(c *ctx, cs c14Case) {
 				c.Class("request-kind-check")
 				if (rn == rsp.needs) == o.Panicked {
 					c.Violation("C14/wrong-request/"+pn+"<-"+rn, fmt.Sprintf("%s given a %s: %s", pn, rn, o), cs)
+				}
+				if !o.Panicked {
+					continue
+				}
+				// round 10: the constructors called right after a refused answer (status %d) build what they build at any
+				// other time - nothing of the refused call is found in them
+				c.Class("constructors-right-after-a-refused-answer")
+				after := []struct {
+					op  string
+					f   func() ast.HSMSMessage
+					h   [10]byte
+					typ string
+				}{
+					{"select.req", func() ast.HSMSMessage { return ast.NewHSMSMessageSelectReq(s16, sys) }, hdr(cs.Session, 0, 0, 1, sys), "select.req"},
+					{"deselect.req", func() ast.HSMSMessage { return ast.NewHSMSMessageDeselectReq(s16, sys) }, hdr(cs.Session, 0, 0, 3, sys), "deselect.req"},
+					{"linktest.req", func() ast.HSMSMessage { return ast.NewHSMSMessageLinktestReq(sys) }, hdr(0xFFFF, 0, 0, 5, sys), "linktest.req"},
+					{"separate.req", func() ast.HSMSMessage { return ast.NewHSMSMessageSeparateReq(s16, sys) }, hdr(cs.Session, 0, 0, 9, sys), "separate.req"},
+					{"linktest.rsp", func() ast.HSMSMessage { return ast.NewHSMSMessageLinktestRsp(ast.NewHSMSMessageLinktestReq(sys)) }, hdr(0xFFFF, 0, 0, 6, sys), "linktest.rsp"},
+					{"select.rsp", func() ast.HSMSMessage { return ast.NewHSMSMessageSelectRsp(ast.NewHSMSMessageSelectReq(s16, sys), 0) }, hdr(cs.Session, 0, 0, 2, sys), "select.rsp"},
+					{"reject.req", func() ast.HSMSMessage { return ast.NewHSMSMessageRejectReq(s16, 0, 3, sys, 1) }, hdr(cs.Session, 3, 1, 7, sys), "reject.req"},
+				}
+				a := after[int(rng.Mix(rng.HashStr(rn), rng.HashStr(pn))%uint64(len(after)))]
+				var m2 ast.HSMSMessage
+				if o2 := real.Try(func() { m2 = a.f() }); o2.Panicked {
+					c.Violation("C14/constructor-refused/after-a-refused-answer/"+a.op, a.op+" right after "+pn+" refused a "+rn+": "+o2.String(), cs)
+				} else {
+					c14Expect(c, a.op+"(after-a-refused-answer)", m2, a.h, a.typ, cs)
+				}
+				// and the refused call is made again before every one of them in turn
+				for _, a := range after {
+					real.Try(func() { rsp.f(req) })
+					if o2 := real.Try(func() { m2 = a.f() }); !o2.Panicked {
+						c14Expect(c, a.op+"(after-a-refused-answer)", m2, a.h, a.typ, cs)
+					}
 				}
 			}
 		}
@@ -459,7 +494,7 @@ func runC14(c *ctx) {
 	for rep := 0; rep < 50; rep++ {
 		c14Eval(c, c14Case{Op: "wrong-request", Session: r.Intn(65536), Sys: pickSys()})
 	}
-	c.Required = []string{"header-bytes-that-read-like-framing", "first-type-calls-of-a-process-made-concurrently", "wrapped-request", "constructed/select.req", "constructed/reject.req", "constructed/linktest.rsp", "constructed/linktest.rsp<-raw", "constructed/select.rsp<-raw", "type/undefined", "type/separate.req", "request-kind-check", "short-header"}
+	c.Required = []string{"header-bytes-that-read-like-framing", "first-type-calls-of-a-process-made-concurrently", "wrapped-request", "constructed/select.req", "constructed/reject.req", "constructed/linktest.rsp", "constructed/linktest.rsp<-raw", "constructed/select.rsp<-raw", "type/undefined", "type/separate.req", "request-kind-check", "constructors-right-after-a-refused-answer", "short-header"}
 }
 
 func replayC14(c *ctx, raw json.RawMessage) {
